@@ -196,7 +196,7 @@ def cases(ctx):
                        'b': {k: (fixed[k] if on else None) for k, on in zip(keys, pb)}}
             idx += 1
     # random pairs
-    for _ in range(ctx.budget(6000, 400000)):
+    for _ in range(ctx.budget(15000, 500000)):
         cls = rng.choice(['Size', 'Point', 'Stretch', 'Padding', 'Alignment', 'Layout', 'Layout'])
         a = _rand(cls, rng)
         r = rng.random()
